@@ -1,13 +1,15 @@
 // Harness for C05 (routing).  Drives the REAL code and writes observations as Gallina cases:
-//   scases  net.SplitHostPort / net.JoinHostPort / url.URL.Hostname,Port        (modelled library functions)
-//   pcases  pac.Proxies(s).First() and Proxy.URL()                               (public API)
-//   rcases  forwarder.DialRedirectFromHostPortPairs                              (public API)
-//   fcases  the composed proxy function martian is given (verif hook), no network
-//   ecases  the real proxy in-process (forwarder.NewHTTPProxy + Run) with a scripted network: which party the
-//           connection was opened to and what it was used as, for a plain request and a CONNECT
+//
+//	scases  net.SplitHostPort / net.JoinHostPort / url.URL.Hostname,Port        (modelled library functions)
+//	pcases  pac.Proxies(s).First() and Proxy.URL()                               (public API)
+//	rcases  forwarder.DialRedirectFromHostPortPairs                              (public API)
+//	fcases  the composed proxy function martian is given (verif hook), no network
+//	ecases  the real proxy in-process (forwarder.NewHTTPProxy + Run) with a scripted network: which party the
+//	        connection was opened to and what it was used as, for a plain request and a CONNECT
 package main
 
 import (
+	"context"
 	"encoding/json"
 	"flag"
 	"fmt"
@@ -18,12 +20,13 @@ import (
 	"sort"
 	"strings"
 	"sync"
+	"time"
 
 	kbhosts "github.com/kevinburke/hostsfile/lib"
 	"github.com/saucelabs/forwarder"
 	"github.com/saucelabs/forwarder/hostsfile"
-	"golang.org/x/net/idna"
 	"github.com/saucelabs/forwarder/pac"
+	"golang.org/x/net/idna"
 
 	"verifharness/coqfmt"
 	"verifharness/rng"
@@ -206,11 +209,11 @@ var rAddrs = []string{"a.test:80", "a.test:443", "b.test:80", "c.test:8080", "[:
 
 // ---------------------------------------------------------------- H: history independence of the resolver
 type hJSON struct {
-	Kind    string      `json:"kind"`
-	PAC     pacDesc     `json:"pac"`
-	Pooled  bool        `json:"pooled"`
-	Concurrent bool     `json:"concurrent,omitempty"` // the look-ups run at the same time (pool only)
-	Queries [][2]string `json:"queries"` // url, hostname argument ("" = from the URL)
+	Kind       string      `json:"kind"`
+	PAC        pacDesc     `json:"pac"`
+	Pooled     bool        `json:"pooled"`
+	Concurrent bool        `json:"concurrent,omitempty"` // the look-ups run at the same time (pool only)
+	Queries    [][2]string `json:"queries"`              // url, hostname argument ("" = from the URL)
 }
 
 func genHistory(r *rng.R, corpus bool) hJSON {
@@ -325,11 +328,52 @@ func hCase(h hJSON) (string, error) {
 	return "{| h_answers := " + coqfmt.List("(option (list N) * option (list N))", parts) + " |}", nil
 }
 
+// ---------------------------------------------------------------- D2b: the Dialer
+type dJSON struct {
+	Kind     string      `json:"kind"`
+	Rules    [][4]string `json:"rules"`
+	Attempts int         `json:"attempts"`
+	Outcomes []bool      `json:"outcomes"` // answers of the socket layer to the successive attempts (none left = failure)
+	Addr     string      `json:"addr"`
+}
+
+func dCase(j dJSON) string {
+	cfg := forwarder.DefaultDialConfig()
+	cfg.Retry.Attempts = j.Attempts
+	cfg.Retry.Backoff = time.Microsecond
+	ps := pairsOf(j.Rules)
+	if len(ps) > 0 {
+		cfg.RedirectFunc = forwarder.DialRedirectFromHostPortPairs(ps)
+	}
+	d := forwarder.NewDialer(cfg)
+	var dials []string
+	d.VerifC05SetDial(func(ctx context.Context, network, address string) (net.Conn, error) {
+		i := len(dials)
+		dials = append(dials, address)
+		if i < len(j.Outcomes) && j.Outcomes[i] {
+			c1, c2 := net.Pipe()
+			c2.Close()
+			return c1, nil
+		}
+		return nil, fmt.Errorf("scripted failure")
+	})
+	c, err := d.DialContext(context.Background(), "tcp", j.Addr)
+	if c != nil {
+		c.Close()
+	}
+	var oc []string
+	for _, o := range j.Outcomes {
+		oc = append(oc, coqfmt.Bool(o))
+	}
+	return fmt.Sprintf("{| dc_rules := %s; dc_attempts := %s; dc_outcomes := %s; dc_addr := %s; dc_dials := %s; dc_ok := %s |}",
+		coqRules(ps), coqfmt.Z(int64(j.Attempts)), coqfmt.List("bool", oc), cs(j.Addr), coqfmt.StrList(dials), coqfmt.Bool(err == nil))
+}
+
 // ---------------------------------------------------------------- configurations
 var partyHosts = []string{"origin.test", "other.test", "www.direct.test", "localhost", "LocalHost", "127.0.0.1", "127.8.8.8", "[::1]", "vm", "10.1.2.3",
 	// spellings the transport maps to another name before it connects (IDNA compatibility mapping)
-	"\u24de\u24e1igin.test" /* circled o,r: origin.test */, "\uff4f\uff54\uff48\uff45\uff52.test" /* fullwidth: other.test */,
-	"\u24dbocalhost" /* circled l: localhost */, "www.\u24d3irect.test" /* www.direct.test */, "b\u00fccher.test" /* xn--bcher-kva.test */,
+	"\u24de\u24e1igin.test" /* circled o,r: origin.test */, "\uff4f\uff54\uff48\uff45\uff52.test", /* fullwidth: other.test */
+	"\u24dbocalhost" /* circled l: localhost */, "www.\u24d3irect.test" /* www.direct.test */, "b\u00fccher.test", /* xn--bcher-kva.test */
 	// fully qualified spellings
 	"origin.test.", "localhost.", "\u24de\u24e1igin.test.",
 	// loopback aliases of the injected hosts file, in several spellings, and a name that only looks like one
@@ -362,6 +406,7 @@ func asciiForm(h string) string {
 	}
 	return h
 }
+
 var proxyHostPorts = []string{"pa.test:3128", "pb.test:8443", "pa.test:80", "10.9.9.9:1080"}
 var directPool = []string{`origin\.test`, `^origin\.test$`, `xn--`, `\.test$`, `-other\.test`, `^www\.`, `localhost`, `direct`, `^10\.`, `-^origin`, `127\.0\.0\.1`, `(?i)LOCALHOST`}
 
@@ -928,6 +973,46 @@ func main() {
 	}
 	m.Counts["rcases"] = ss.write("rcases", "rcase", "rcase_model_ok", "rcase_prop_ok", rc, rj)
 
+	// ---- D2b: the Dialer itself with arbitrary outcome patterns
+	{
+		nD := 600
+		if thorough {
+			nD = 8000
+		}
+		var dcs []string
+		var djs []any
+		add := func(j dJSON) {
+			dcs = append(dcs, dCase(j))
+			djs = append(djs, j)
+		}
+		// corpus: chained / cyclic rules, failing first attempts
+		for _, rs := range [][][4]string{
+			{{"a.test", "", "b.test", ""}, {"b.test", "", "c.test", ""}},
+			{{"a.test", "", "b.test", ""}, {"b.test", "", "a.test", ""}},
+			{{"", "80", "", "443"}, {"", "443", "", "80"}},
+			nil,
+		} {
+			for _, att := range []int{-1, 0, 1, 2, 3} {
+				for _, oc := range [][]bool{{true}, {false, true}, {false, false, true}, {false, false, false, false}, {}} {
+					add(dJSON{Kind: "dialer", Rules: rs, Attempts: att, Outcomes: oc, Addr: "a.test:80"})
+				}
+			}
+		}
+		for i := 0; i < nD; i++ {
+			n := r.Intn(4)
+			var rs [][4]string
+			for k := 0; k < n; k++ {
+				rs = append(rs, [4]string{r.Pick(rHosts), r.Pick(rPorts), r.Pick(rHosts), r.Pick(rPorts)})
+			}
+			var oc []bool
+			for k, m := 0, r.Intn(5); k < m; k++ {
+				oc = append(oc, r.Chance(1, 3))
+			}
+			add(dJSON{Kind: "dialer", Rules: rs, Attempts: r.Intn(6) - 1, Outcomes: oc, Addr: r.Pick(rAddrs)})
+		}
+		m.Counts["dcases"] = ss.write("dcases", "dcase", "dcase_model_ok", "dcase_prop_ok", dcs, djs)
+	}
+
 	// ---- L: the localhost classifier on the host pool (one real proxy, accessor)
 	{
 		w := newWorld()
@@ -1477,6 +1562,10 @@ func doReplay(path string, ss *shardSet, m *meta) {
 		}
 		c := fmt.Sprintf("{| lc_aliases := %s; lc_idna := %s; lc_host := %s; lc_out := %s |}", coqfmt.StrList(aliases), idnaT, cs(j.Host), coqfmt.Bool(rg.hp.VerifC05IsLocalhost(j.Host)))
 		m.Counts["lcases"] = ss.write("lcases", "lcase", "lcase_model_ok", "lcase_prop_ok", []string{c}, []any{map[string]any{"kind": "localhost", "host": j.Host, "aliases": aliases}})
+	case "dialer":
+		var j dJSON
+		json.Unmarshal(data, &j)
+		m.Counts["dcases"] = ss.write("dcases", "dcase", "dcase_model_ok", "dcase_prop_ok", []string{dCase(j)}, []any{j})
 	case "history":
 		var j hJSON
 		json.Unmarshal(data, &j)
